@@ -94,6 +94,8 @@ def enumerate_paths(crate, body, markers=None, max_paths=4096, atom_calls=None):
                     env[d] = ("const", int(op["int"])) if "int" in op and "uneval" not in op else ("unk",)
                 elif not op["pl"]["p"] and op["pl"]["l"] in env:
                     env[d] = env[op["pl"]["l"]]
+                    for k_ in [k_ for k_ in env if isinstance(k_, tuple) and k_[0] == op["pl"]["l"]]:
+                        env[(d, k_[1])] = env[k_]
                 else:
                     env[d] = ("unk",)
             elif rv["rk"] == "unop" and rv["op"] == "Not":
@@ -115,6 +117,8 @@ def enumerate_paths(crate, body, markers=None, max_paths=4096, atom_calls=None):
                 env[d] = ("atom", atom, neg)
             elif rv["rk"] == "discr":
                 src_v = env.get(rv["pl"]["l"], ("unk",)) if rv["pl"]["p"] in ([], ["*"]) else ("unk",)
+                if len(rv["pl"]["p"]) == 1 and rv["pl"]["p"][0].startswith("f:"):
+                    src_v = env.get((rv["pl"]["l"], rv["pl"]["p"][0]), ("unk",))       # a field of a tuple built on this path
                 if src_v[0] == "variant":
                     env[d] = ("const", src_v[2])          # the variant was built on this very path
                 else:
@@ -125,6 +129,15 @@ def enumerate_paths(crate, body, markers=None, max_paths=4096, atom_calls=None):
                 env[d] = ("variant", rv.get("adt"), int(rv["vidx"]), not rv.get("ops"))
             elif rv["rk"] == "ref" and rv["pl"]["p"] in ([], ["*"]) and env.get(rv["pl"]["l"], ("unk",))[0] == "variant":
                 env[d] = env[rv["pl"]["l"]]
+            elif rv["rk"] == "agg" and rv.get("ak") == "tuple":
+                # `(Some(a), None)`: remember which variants the fields hold, for a `match` on the tuple further down this path
+                env[d] = ("unk",)
+                for k_ in [k_ for k_ in env if isinstance(k_, tuple) and k_[0] == d]:
+                    env.pop(k_)
+                for i_, op_ in enumerate(rv["ops"]):
+                    l_ = flow.operand_local(op_)
+                    if l_ is not None and op_.get("k") != "const" and not op_["pl"]["p"] and env.get(l_, ("unk",))[0] == "variant":
+                        env[(d, "f:%d:" % i_)] = env[l_]
             else:
                 env[d] = ("unk",)
         t = blk["term"]
